@@ -33,16 +33,17 @@ type Violation struct {
 }
 
 type Finding struct {
-	ID          string              `json:"id"`
-	Property    string              `json:"property"`
-	Status      string              `json:"status"` // open | fixed
-	Symptom     string              `json:"symptom"`
-	Where       map[string][]string `json:"where"`
-	CallSite    string              `json:"call_site,omitempty"`
-	Explanation string              `json:"explanation"`
-	Commit      string              `json:"commit,omitempty"`
-	Blocks      bool                `json:"blocks,omitempty"`
-	CellsAtCommit int               `json:"cells_at_commit,omitempty"`
+	ID            string              `json:"id"`
+	Property      string              `json:"property"`
+	Status        string              `json:"status"` // open | fixed
+	Symptom       string              `json:"symptom"`
+	Where         map[string][]string `json:"where"`
+	Detail        string              `json:"detail,omitempty"` // optional pattern (glob or re:) the violation's detail must match
+	CallSite      string              `json:"call_site,omitempty"`
+	Explanation   string              `json:"explanation"`
+	Commit        string              `json:"commit,omitempty"`
+	Blocks        bool                `json:"blocks,omitempty"`
+	CellsAtCommit int                 `json:"cells_at_commit,omitempty"`
 }
 
 type Run struct {
@@ -162,6 +163,9 @@ func (f *Finding) Matches(v *Violation) bool {
 	if f.Property != v.Property || !globMatch(f.Symptom, v.Symptom) {
 		return false
 	}
+	if f.Detail != "" && !globMatch(f.Detail, v.Detail) {
+		return false
+	}
 	feats := ParseCell(v.Cell)
 	for k, allowed := range f.Where {
 		val, ok := feats[k]
@@ -267,13 +271,13 @@ func (r *Run) Finish() int {
 	}
 	wall := time.Since(r.start).Seconds()
 	cov := map[string]any{
-		"evaluations":         r.Evaluations,
-		"distinct_nontrivial": len(r.cases),
-		"rule":                r.Rule,
-		"samples":             r.Samples,
-		"programs":            r.Programs,
-		"exhaustive":          r.Exhaustive,
-		"outcome_classes":     r.outcomes,
+		"evaluations":          r.Evaluations,
+		"distinct_nontrivial":  len(r.cases),
+		"rule":                 r.Rule,
+		"samples":              r.Samples,
+		"programs":             r.Programs,
+		"exhaustive":           r.Exhaustive,
+		"outcome_classes":      r.outcomes,
 		"known_findings_fired": fired,
 		"known_findings_cells": firedCells,
 	}
